@@ -34,6 +34,8 @@ type srvGen struct {
 	next   int
 	c      *drv.SCase
 	rg     *ribGen
+	idsOf  map[int][]uint64 // operation ids each session has used
+	closeAfter bool          // the next operations message is followed by a half-close at once
 }
 
 func (g *srvGen) add(st drv.SStep) { g.c.Steps = append(g.c.Steps, st) }
@@ -133,6 +135,21 @@ func (g *srvGen) opsMsg(s int, n int) {
 		}
 		op := *x.Op
 		op.ID = g.id()
+		if g.prof == "C04" && len(g.idsOf) > 0 && g.r.Chance(1, 5) && (g.last[s] == nil || (g.max != nil && g.last[s].Less(*g.max))) {
+			// clients number their operations independently: a session that is not the primary uses an id that
+			// another session has used (perhaps for an operation that is still held); its operation is rejected
+			// and must leave that operation alone
+			for _, other := range g.liveListAll() {
+				if other != s && len(g.idsOf[other]) > 0 {
+					op.ID = g.idsOf[other][g.r.Intn(len(g.idsOf[other]))]
+					break
+				}
+			}
+		}
+		if g.idsOf == nil {
+			g.idsOf = map[int][]uint64{}
+		}
+		g.idsOf[s] = append(g.idsOf[s], op.ID)
 		if g.r.Chance(1, 60) {
 			op.Kind = "OTHER"
 		}
@@ -146,11 +163,24 @@ func (g *srvGen) opsMsg(s int, n int) {
 		// an empty / unknown instance name on an operation that is not the last of its request
 		st.Ops[g.r.Intn(n-1)].NI = drv.Pick(g.r, 0, 0, 4)
 	}
+	if g.closeAfter {
+		st.CloseAfter = true
+	}
 	g.add(st)
 	// a fatal error ends the RPC: the generator cannot know, but the runner tolerates steps on dead sessions
 }
 
 func (g *srvGen) id() uint64 { g.nextID++; return g.nextID }
+
+// liveListAll: every session that has used an operation id, in session order.
+func (g *srvGen) liveListAll() []int {
+	ls := []int{}
+	for s := range g.idsOf {
+		ls = append(ls, s)
+	}
+	sort.Ints(ls)
+	return ls
+}
 
 func genSCase(r *drv.Rng, prof string) drv.SCase {
 	c := drv.SCase{NoFwd: r.Chance(1, 8), VRFs: []int{2, 3}}
@@ -223,6 +253,14 @@ func genSCase(r *drv.Rng, prof string) drv.SCase {
 				}
 			}
 		case x < 84:
+			if prof == "C06" && r.Chance(1, 3) {
+				// the session sends a last, long request and half-closes behind it without waiting for the answers
+				g.closeAfter = true
+				g.opsMsg(s, 8+r.Intn(13))
+				g.closeAfter = false
+				g.drop(s)
+				break
+			}
 			g.add(drv.SStep{K: drv.Pick(r, "close", "abort"), S: s})
 			g.drop(s)
 		case x < 90:
@@ -469,6 +507,12 @@ func genC08(g *srvGen) drv.SCase {
 		// the primary announces a lower id (it keeps the role and the server keeps the highest id it has learnt: the
 		// Flush decisions below are still made against base); its operations are stamped with the new, lower id and rejected
 		g.announce(s, drv.U128{Hi: base.Hi, Lo: base.Lo - 1})
+	}
+	if !noElection && base.Hi >= 1 && r.Chance(1, 3) {
+		// a second session announces an id that is lower as a 128-bit number although its low word is higher: it does
+		// not become primary and the highest id the server has learnt - the one Flush is judged against - stays
+		s2 := g.connect(true)
+		g.announce(s2, drv.U128{Hi: base.Hi - 1, Lo: base.Lo + uint64(1+r.Intn(60))})
 	}
 	nflush := 1 + r.Intn(3)
 	for i := 0; i < nflush; i++ {
